@@ -97,7 +97,10 @@ def execute(case, scratch):
                 cfg = refmodel.entry_config(e, root)
                 for _ in refmodel.compiler_passes(cfg["compiler"], cfg["other"]):
                     expc.append([cfg["file"].replace(top, "@TOP@"), [x.replace(top, "@TOP@") for x in cfg["search"]]])
-            got = [[x["file"], x["include_paths"]] for x in obs["db"][p["name"]]]
+            # the search list is every "*include_paths" value of the entry, in key order (an
+            # implementation may keep -isystem directories under a key of their own)
+            got = [[x["file"], [d for k in x if k.endswith("include_paths") for d in x[k]]]
+                   for x in obs["db"][p["name"]]]
             if got != expc:
                 i = next((i for i, (a, b) in enumerate(zip(got, expc)) if a != b), min(len(got), len(expc)))
                 return {"verdict": "violation", "stats": stats,
